@@ -40,6 +40,8 @@ def stages(i):
         lambda: ('delete', (c(1), c(2))), lambda: ('replace', (c(1), c(60))), lambda: ('replace', (c(2), c(60), c(3))), lambda: ('slice', (c(2),)), lambda: ('memorize', ()),
         lambda: ('join', (c([1, 2]), g.bn('=', g.bn('mod', i.l(g.var('1')), c(3)), g.var('2')), g.lst(g.var('1'), g.var('2')))),
         lambda: ('limit', (c(4),)),
+        # the stream as the argument of a list's method / the right operand of `+`: the list's items first, the stream as far as demanded
+        lambda: ('prepend', (c([7, 8]),)), lambda: ('prepend', (c([]),), '+'), lambda: ('prepend', (c([7, 8, 9]),), '+'),
         # inner collections that are themselves lazy: their lambda runs only for what is consumed
         lambda: ('selectMany', (g.mcall(g.call('range', g.bn('+', g.bn('mod', X, c(3)), c(2))), 'select', i.l(g.bn('*', X, c(10)))),)),
         lambda: ('join', (g.mcall(c([1, 2, 0, 1]), 'select', i.l(g.bn('mod', X, c(2)))), g.bn('=', g.bn('mod', i.l(g.var('1')), c(2)), g.var('2')),
@@ -57,8 +59,12 @@ def demands(i):
 
 def build(chain):
     e = X
-    for f, a in chain:
-        e = g.mcall(e, f, *a)
+    for st in chain:
+        f, a = st[0], st[1]
+        if f == 'prepend':
+            e = g.bn('+', a[0], e) if len(st) > 2 else g.mcall(a[0], 'concat', e)
+        else:
+            e = g.mcall(e, f, *a)
     return e
 
 
@@ -132,7 +138,7 @@ def run(rep, tier, seed, keep=False):
                 for t in tick_log:
                     cnt[t] = cnt.get(t, 0) + 1
                 i = len(events)
-                events.append({'id': i, 'stages': [{'f': f, 'args': [g.tla_ast(x) for x in a]} for f, a in chain[:-1]],
+                events.append({'id': i, 'stages': [{'f': st_[0], 'args': [g.tla_ast(x) for x in st_[1]]} for st_ in chain[:-1]],
                                'demand': {'f': chain[-1][0], 'args': [g.tla_ast(x) for x in chain[-1][1]]}, 'fuel': B,
                                'pulls': pulls, 'outcome': outcome, 'res': res, 'ticks': [[k, v] for k, v in sorted(cnt.items())] or [[0, 0]]})
                 desc[i] = (text + tag, outcome, pulls, dict(cnt), note)
